@@ -88,7 +88,7 @@ class Resolver(dns.resolver.BaseResolver):
             while not done:
                 nameserver, tcp, backoff = resolution.next_nameserver()
                 if backoff:
-                    await backend.sleep(backoff)
+                    await backend.sleep(self._clamp_backoff(start, lifetime, backoff))
                 timeout = self._compute_timeout(start, lifetime, resolution.errors)
                 try:
                     response = await nameserver.async_query(
